@@ -41,11 +41,13 @@ import "github.com/biogo/biogo/feat"
 //@   ensures [loc]    forall i int :: 0 <= i && i < len(result) ==> result[i].Transcript == s[i+1].Transcript
 //@   ensures [frame]  forall i int :: 0 <= i && i < len(s) ==> s[i] == old(s[i])
 //@   assigns fresh
-//@   loop 1 invariant 1 <= i && i <= len(s) && len(introns) == i - 1
-//@   loop 1 invariant forall k int :: 0 <= k && k < i - 1 ==> introns[k].Offset == s[k].Offset + s[k].Length && introns[k].Offset + introns[k].Length == s[k+1].Offset && introns[k].Length >= 0
-//@   loop 1 invariant forall k int :: 0 <= k && k < i - 1 ==> introns[k].Transcript == s[k+1].Transcript
+// (the invariants count completed iterations - idx - instead of naming the loop counter, so that they survive a
+// re-indexing of the loop such as `for i := range s[1:]`)
+//@   loop 1 invariant 0 <= idx && idx <= len(s) - 1 && len(introns) == idx
+//@   loop 1 invariant forall k int :: 0 <= k && k < idx ==> introns[k].Offset == s[k].Offset + s[k].Length && introns[k].Offset + introns[k].Length == s[k+1].Offset && introns[k].Length >= 0
+//@   loop 1 invariant forall k int :: 0 <= k && k < idx ==> introns[k].Transcript == s[k+1].Transcript
 //@   loop 1 invariant fresh(introns) || arr(introns) == 0
-//@   loop 1 decreases len(s) - i
+//@   loop 1 decreases len(s) - 1 - idx
 
 //@ func buildExonsFor
 //@   property C20
